@@ -126,3 +126,16 @@ claim('C23', 'proof',
       '(with _pick_consistency inlined) and every assertion of the property is discharged per row; exhaustive over all inputs under the stated '
       'coordinator assumptions', 'exhaustive CFG path enumeration of comparison-only functions (decision tables)',
       'trusted: CPython ast, sa/cfg.py path enumeration and atom normalisation; assumptions listed in the evidence', 'DESIGN.md section 5 C23')
+
+claim('C25', 'other',
+      'static analysis: atomic swap + cancel-displaced contract at every call site, must-call chain of the marked-down path, single handler install/start, '
+      're-test of _cancelled after a successful connect (typestate), flag set/reset on all exits incl. exceptional, listener notification after every '
+      'set_up(), shutdown guards', 'CFG typestate / must-call dataflow with exceptional edges + contract per call site', _TB, 'DESIGN.md section 5 C25')
+claim('C26', 'other',
+      'static analysis (narrow): every append to a replica list is dominated by a non-membership fact (directly or through a de-duplicated holding '
+      'list), stop conditions, ring wrap-around, bisect_left lookup. Equality with Cassandra\'s placement over all rings is not decided',
+      'CFG dataflow with branch facts (append guards)', _TB, 'DESIGN.md section 5 C26')
+claim('C27', 'other',
+      'static analysis: shape of the escaping functions, regex AST of the bare-word pattern (anchors, character classes), decision table of '
+      'is_valid_name/maybe_escape_name, folded reserved-word sets, and a who-may-interpolate rule over every quoted %s placeholder in generated CQL '
+      '(schema export, USE)', 'regex AST (re._parser) + path enumeration + constant folding + format-string placeholder analysis', _TB, 'DESIGN.md section 5 C27')
